@@ -8,12 +8,17 @@ theorem flagRun_cons (b : Bool) (c : Call) (cs : List Call) :
     flagRun b (c :: cs) = ((flagRun (flagStep b c).1 cs).1, (flagStep b c).2 :: (flagRun (flagStep b c).1 cs).2) := by
   simp [flagRun]
 
-/-- the flag is false at the end exactly when either it started false and no filtered load
-    succeeded, or some successful full load is followed by no successful filtered load -/
+/-- a filtered load, completed or not -/
+def Call.isFilteredLoad : Call → Bool
+  | .loadFiltered _ => true
+  | _ => false
+
+/-- the flag is false at the end exactly when either it started false and no filtered load was
+    attempted, or some successful full load is followed by no filtered load at all -/
 theorem flagRun_false_iff (b : Bool) (calls : List Call) :
     (flagRun b calls).1 = false ↔
-      (b = false ∧ ∀ c ∈ calls, c ≠ .loadFiltered true) ∨
-      ∃ pre post, calls = pre ++ .loadFull true :: post ∧ ∀ c ∈ post, c ≠ .loadFiltered true := by
+      (b = false ∧ ∀ c ∈ calls, c.isFilteredLoad = false) ∨
+      ∃ pre post, calls = pre ++ .loadFull true :: post ∧ ∀ c ∈ post, c.isFilteredLoad = false := by
   induction calls generalizing b with
   | nil => simp [flagRun]
   | cons c cs ih =>
@@ -28,27 +33,19 @@ theorem flagRun_false_iff (b : Bool) (calls : List Call) :
           | true => exact Or.inr ⟨[], cs, rfl, hcs⟩
           | false =>
             simp only [flagStep] at hb
-            exact Or.inl ⟨by simpa using hb, by simpa using hcs⟩
-        | loadFiltered ok =>
-          cases ok with
-          | true => simp [flagStep] at hb
-          | false =>
-            simp only [flagStep] at hb
-            exact Or.inl ⟨by simpa using hb, by simpa using hcs⟩
+            exact Or.inl ⟨by simpa using hb, by simpa [Call.isFilteredLoad] using hcs⟩
+        | loadFiltered ok => simp [flagStep] at hb
         | save =>
           simp only [flagStep] at hb
-          exact Or.inl ⟨hb, by simpa using hcs⟩
+          exact Or.inl ⟨hb, by simpa [Call.isFilteredLoad] using hcs⟩
       · exact Or.inr ⟨c :: pre, post, by rw [e]; rfl, hp⟩
     · rintro (⟨hb, hcs⟩ | ⟨pre, post, e, hp⟩)
-      · have hc : c ≠ .loadFiltered true := hcs c List.mem_cons_self
-        have hcs' : ∀ x ∈ cs, x ≠ .loadFiltered true := fun x hx => hcs x (List.mem_cons_of_mem _ hx)
+      · have hc : c.isFilteredLoad = false := hcs c List.mem_cons_self
+        have hcs' : ∀ x ∈ cs, x.isFilteredLoad = false := fun x hx => hcs x (List.mem_cons_of_mem _ hx)
         refine Or.inl ⟨?_, hcs'⟩
         cases c with
         | loadFull ok => cases ok <;> simp [flagStep, hb]
-        | loadFiltered ok =>
-          cases ok with
-          | true => exact absurd rfl hc
-          | false => simp [flagStep, hb]
+        | loadFiltered ok => simp [Call.isFilteredLoad] at hc
         | save => simp [flagStep, hb]
       · cases pre with
         | nil =>
